@@ -6,6 +6,8 @@ func init() {
 		c.R.Assume("commands are stubs with one scheduling point between start and end (latency = any number of other steps, including zero)", "scheduling points sit at every lock, once, wait-group wait, channel operation, select, close and goroutine start of graph_walker.go and task_worker_pool.go; atomics are not scheduling points", "goroutine interleavings beyond the deviation bound are not covered")
 		walkCheckBudget("C04", []string{"C04:"}, 2, 3, 40, 420)(c)
 		c04MissingBlobs(c)
+		// the schedule dimension of a failing restore (real Registry.LoadOutputs under the controlled scheduler): it returns
+		loadQuiescence(c, "C04", "load-outputs-never-returns")
 		// (c) every failure mode of a real command must end the build: exit code, missing output and
 		// timeout failures of targets with dependants, keep-going and fail-fast (real binary, chain workspace;
 		// one target declares a timeout that never expires)
